@@ -212,7 +212,7 @@ func c05Worker(maxN, from int) int {
 func checkC05(r *Report, known []Finding) {
 	r.Rule = "work = sum of executed basic blocks of library code (coverage counters, atomic mode, cleared around ONE call; minimum over up to three identical calls, which removes one-off initialisation work) for Match / FindIndex / FindSubmatchIndex on adversarial families " +
 		"(near-miss repetitions per strategy: candidate-dense inputs, overlapping classes, repeated suffixes, digit runs, classic ReDoS shapes) at n = 512 … 8192 (32768 thorough); the property's own shape " +
-		"check: doubling n must at most ~double the work (ratio <= 2.6 at the two largest doublings); compile work for pattern-size doublings must stay polynomial (ratio <= 9); " +
+		"check: doubling n must at most ~double the work (violation: ratio > 2.6 at the largest doubling, or > 2.3 at the two largest doublings in a row; a single jump followed by ~2 is a change of regime between two linear engines); compile work for pattern-size doublings must stay polynomial (ratio <= 9); " +
 		"non-trivial = every measured call; distinct by (pattern, input family, api, n)"
 	maxN := 8192
 	if r.Tier == "thorough" {
@@ -298,22 +298,32 @@ func checkC05(r *Report, known []Finding) {
 	t := r.Tie("work(2n) <= 2.6 * work(n): search")
 	for _, k := range order {
 		s := series[k]
-		worst := 0.0
-		at := 0
-		for n := maxN; n >= 2048 && n >= maxN/2; n /= 2 {
-			if s[n] > 0 && s[n/2] > 0 {
-				ratio := float64(s[n]) / float64(s[n/2])
-				if ratio > worst {
-					worst, at = ratio, n
-				}
+		// superlinear growth persists: it shows at the LAST doubling (ratio > 2.6), or at the two doublings before the largest size
+		// in a row (> 2.3 each). One isolated jump followed by a ratio of ~2 is a change of regime between two linear ones (the
+		// bounded backtracker hands over to the Pike VM above its visited-table limit), not superlinear work.
+		ratioAt := func(n int) float64 {
+			if n < 1024 || s[n] == 0 || s[n/2] == 0 {
+				return 0
 			}
+			return float64(s[n]) / float64(s[n/2])
 		}
-		if at == 0 {
+		// the largest size actually measured (a timeout removes the larger ones; timeouts are reported separately)
+		top := maxN
+		for top >= 2048 && s[top] == 0 {
+			top /= 2
+		}
+		last, prev := ratioAt(top), ratioAt(top/2)
+		worst, at := last, top
+		if last == 0 {
 			continue
 		}
 		t.Cases++
 		r.Dist["strategy:"+k.strat]++
-		if worst <= 2.6 {
+		superlinear := last > 2.6 || (last > 2.3 && prev > 2.3)
+		if !superlinear {
+			if prev > 2.6 {
+				r.Dist["regime-change(one jump, linear on both sides)"]++
+			}
 			continue
 		}
 		t.Disagreements++
